@@ -159,6 +159,14 @@ CHECKS = {
         "tifffile and TLC decides on the logged tables: full resolution first then reduced-resolution pages, padding rule, exact halving, tile sizes multiples of 16, table sizes, every entry inside the data area, "
         "no overlap, no gap from the end of the header to EOF, all overview tile data before full-resolution data; decode fidelity (rasterio and tifffile pixels, overviews, transform, CRS, nodata) enters as booleans.",
    ref="5/C05", note=TB + "codec fidelity is an oracle (GDAL, tifffile), not modelled; compression='none' is not exercised: it never returns (tifffile loops on the empty placeholder tiles of an uncompressed image) - see DESIGN.md"),
+ "C15": dict(
+   technique="TLA+ decision model of the GDAL COG writer options and overwrite-guard state machine (RioCog) checked by TLC; real write_cog / to_cog / write_cog_layers outputs read back and validated by TLC, with read-back fidelity as GDAL oracle booleans",
+   text="The overwrite guard is a two-state machine checked by TLC (an existing file is never touched by a write that did not request overwriting; the error is raised exactly then); the option table (band layout "
+        "normalisation, default overview levels under / over 512 px, block size rule, externally supplied overviews) is enumerated by TLC. Every configuration is written for real (file and memory, three "
+        "entry points, windowed writes, intermediate compression, rotated transforms, 7 dtype / layout / nodata variants, pre-existing destination x overwrite) and read back with rasterio and tifffile; TLC "
+        "decides: guard outcome and content hash class, band count, internal tiling, block sizes multiples of 16, exactly the requested overview levels by their shapes; pixel / band order / dtype / transform / CRS / "
+        "nodata equality enter as oracle booleans. This is the property where the model contributes least; it is claimed for its configuration logic and guard.",
+   ref="5/C15", note=TB + "read-back fidelity rests on GDAL as the independent reader named by the property"),
 }
 
 NOT_YET = "check not built yet (work in progress); see DESIGN.md"
